@@ -1,6 +1,7 @@
 package main
 
 import (
+	"encoding/json"
 	"fmt"
 	"os"
 	"strconv"
@@ -25,6 +26,16 @@ func main() {
 			os.Exit(2)
 		}
 		os.Exit(workerMain(os.Args[2], os.Args[3]))
+	case "cases":
+		// vcheck cases <prop> <tier> <seed>: print the case list as JSON
+		p := props[os.Args[2]]
+		seed, _ := strconv.ParseInt(os.Args[4], 10, 64)
+		cs := p.Cases(os.Args[3], seed)
+		for i := range cs {
+			cs[i].Prop, cs[i].Tier, cs[i].Seed, cs[i].Index = os.Args[2], os.Args[3], seed, i
+		}
+		b, _ := json.Marshal(cs)
+		fmt.Println(string(b))
 	case "list":
 		for id, p := range props {
 			fmt.Println(id, p.Engine, p.Level)
